@@ -416,11 +416,98 @@ def parser_values_stream(ctx, res):
             res.violate("C16:override-touched-unsupplied", "cmdline_args_override changed a field the command line did not supply (or asked to ignore)", case)
 
 
+def parser_corner_stream(ctx, res):
+    """(a) boolean fields whose option contains `--` inside (a key that ends in an underscore, a key with a double underscore): the off
+    switch is `--no-` + the rest of the on switch, and turns exactly that field off; (b) one parsed namespace applied several times
+    with different ignore lists: each application overrides exactly what it was not told to ignore, and the caller's namespace is
+    left as parsed; (c) a section built on its own, its fields' reference paths read, and then mounted into a larger schema: the
+    paths reported afterwards are the mounted ones everywhere"""
+    import copy as _copy
+    import cincoconfig as cc
+    # (a)
+    s = cc.Schema()
+    s.import_.strict = cc.BoolField(default=True)
+    s.log.rotate__daily = cc.BoolField(default=True)
+    s.verbose = cc.BoolField(default=True)
+    s.import_.depth = cc.IntField(default=1)
+    res.case("parser-corner:switches", kind="parser-corner:switches")
+    try:
+        parser = cc.generate_argparse_parser(s)
+        flags = sorted(o for a in parser._actions for o in a.option_strings if a.dest != "help")
+        want = sorted(["--import--strict", "--no-import--strict", "--log-rotate--daily", "--no-log-rotate--daily", "--verbose", "--no-verbose", "--import--depth"])
+        if flags != want:
+            res.violate("C16:parser", "the generated parser does not offer exactly one option per scalar field (two switches per boolean) with dest = path",
+                        {"stream": "parser-corner", "got": flags, "want": want})
+        else:
+            for argv, path in ((["--no-import--strict"], "import_.strict"), (["--no-log-rotate--daily"], "log.rotate__daily"), (["--no-verbose"], "verbose")):
+                cfg = s()
+                cc.cmdline_args_override(cfg, parser.parse_args(argv))
+                others = [p for p in ("import_.strict", "log.rotate__daily", "verbose") if p != path]
+                if cfg[path] is not False or any(cfg[p] is not True for p in others):
+                    res.violate("C16:override", "an off switch did not turn exactly its own field off", {"stream": "parser-corner", "argv": argv, "tree": cfg.to_tree()})
+    except BaseException as e:  # noqa
+        res.violate("C16:parser", "generating / using the parser raised %s" % type(e).__name__, {"stream": "parser-corner", "error": str(e)[:120]})
+    # (b)
+    s = cc.Schema()
+    s.http.port = cc.IntField(default=8080)
+    s.http.tls.enabled = cc.BoolField(default=True)
+    s.db.name = cc.StringField(default="main")
+    parser = cc.generate_argparse_parser(s)
+    ns = parser.parse_args(["--http-port", "9000", "--no-http-tls-enabled", "--db-name", "other"])
+    before = _copy.deepcopy(vars(ns))
+    res.case("parser-corner:reapplied", kind="parser-corner:reapplied")
+    plans = [(["http.port", "http.tls.enabled", "db.name"], (8080, True, "main")), ([], (9000, False, "other")), (["db.name"], (9000, False, "main")), (["http.port"], (8080, False, "other"))]
+    for ignore, want in plans:
+        cfg = s()
+        try:
+            cc.cmdline_args_override(cfg, ns, ignore=ignore)
+            got = (cfg.http.port, cfg.http.tls.enabled, cfg.db.name)
+        except Exception as e:  # noqa
+            got = "raised %s" % type(e).__name__
+        if got != want:
+            res.violate("C16:override", "applying one parsed namespace again (other ignore list) does not override exactly the supplied, non-ignored options",
+                        {"stream": "parser-corner", "ignore": ignore, "got": got, "want": want})
+            break
+    if vars(ns) != before:
+        res.violate("C16:override-changed-namespace", "cmdline_args_override changed the caller's parsed namespace", {"stream": "parser-corner", "before": before, "after": dict(vars(ns))})
+    # (c)
+    tls = cc.Schema()
+    tls.enabled = cc.BoolField(default=False)
+    tls.cert.file = cc.StringField(default="c")
+    tls.cert.depth = cc.IntField(default=1)
+    early = [cc.item_ref_path(f) for _, _, f in cc.get_all_fields(tls)]          # read while the section stands alone
+    try:
+        tls["enabled.nope"]                                                          # (an error text that mentions a path, too)
+    except Exception:  # noqa
+        pass
+    s = cc.Schema()
+    s.name = cc.StringField(default="n")
+    s.http.tls = tls
+    res.case("parser-corner:mounted-after-read", kind="parser-corner:mounted")
+    for p, _, f in cc.get_all_fields(s):
+        try:
+            resolved = s[p]
+        except Exception:  # noqa
+            resolved = None
+        if cc.item_ref_path(f) != p or resolved is not f:
+            res.violate("C16:ref-path", "an enumerated path differs from the field's reference path (or does not resolve) after the section was mounted",
+                        {"stream": "parser-corner", "path": p, "ref_path": cc.item_ref_path(f), "read_before_mounting": early})
+            break
+    cfg = s()
+    try:
+        cfg["http.tls.cert.file"] = "x"
+        if cfg.http.tls.cert.file != "x" or ("http.tls.enabled" in cfg) is not True:
+            raise ValueError
+    except Exception:  # noqa
+        res.violate("C16:dotted-vs-chained", "dotted access to a field of a section mounted after its paths were read fails", {"stream": "parser-corner"})
+
+
 def run(ctx, n_quick=200, n_thorough=6000):
     res = Result()
     guard(res, "C16", naming_and_parser, ctx, res, ctx.n(n_quick, n_thorough))
     guard(res, "C16", explicit_key_stream, ctx, res)
     guard(res, "C16", parser_values_stream, ctx, res)
+    guard(res, "C16", parser_corner_stream, ctx, res)
     P.run_stream(ctx, res, "C16", ctx.n(n_quick, n_thorough), oracle, gen_ops=gen_ops, ops_len=(3, 6), schema_gen=lambda rng, t, k: no_collision_schema(rng, t, k))
     return res
 
